@@ -594,6 +594,15 @@ func checkShare(vd *Verdict, v *prioView) {
 func checkProgress(vd *Verdict, v *prioView) {
 	sc := v.sc
 
+	if sc.Class == "dynamic" {
+		// items written to a channel registered through AddInput must be delivered too
+		checkDynamic(vd, v, map[string]bool{
+			"terminated-with-undelivered-item": true, "graceful-stop-not-finished": true, "read-item-lost": true,
+		})
+
+		return
+	}
+
 	switch sc.Class {
 	case "single", "sparse":
 		// exactly one priority has data: it must be granted all H handlers
